@@ -10,6 +10,7 @@ url         every string of length <= 2 over ASCII + 6 non-ASCII characters: all
 
 import datetime
 import itertools
+import os
 import re
 import time
 import urllib.parse
@@ -45,7 +46,7 @@ KEYSET = frozenset(('k1', 'k2'))
 BOUNDS = {
     # L: max array length; T: max total number of cells (array elements + object entries) over all reachable
     # containers; D: max nesting depth of containers below a pool variable
-    'quick': {'L': 2, 'T': 4, 'D': 2},
+    'quick': {'L': 2, 'T': 3, 'D': 2},
     'thorough': {'L': 3, 'T': 5, 'D': 2},
 }
 
@@ -229,19 +230,22 @@ def alphabet(L):  # pylint: disable=too-many-locals,too-many-statements
 # ---------------------------------------------------------------------------------------------------------------
 
 def seed_pools():
+    """The initial state and six non-initial seed states (each at most 3 cells, so inside every tier's bound). Without
+    events that rebind variables the binding topology (which variables share a container) is invariant along a
+    history; the seeds supply the topologies: cc = aa / pp = oo (the design's pool), one array behind all three names,
+    every name its own container, pp a separate object, and containers that no variable names (anonymous)."""
     out = []
     aa, bb, oo = [], [], {}
     out.append(('empty: cc = aa, pp = oo', {'aa': aa, 'bb': bb, 'cc': aa, 'oo': oo, 'pp': oo}))
-    aa, bb, oo = [1.0, 'x'], [None], {'k1': 1.0}
+    aa, bb, oo = [1.0, 'x'], [None], {}
     out.append(('filled', {'aa': aa, 'bb': bb, 'cc': aa, 'oo': oo, 'pp': oo}))
     bb = ['x']
     aa, oo = [bb], {'k2': bb}
     out.append(('bb shared by aa and oo', {'aa': aa, 'bb': bb, 'cc': aa, 'oo': oo, 'pp': oo}))
     aa, oo = [1.0], {}
     out.append(('aa = bb = cc one array', {'aa': aa, 'bb': aa, 'cc': aa, 'oo': oo, 'pp': oo}))
-    oo = {'k1': 'x'}
-    out.append(('cc a separate array, pp a separate object', {'aa': [1.0], 'bb': [], 'cc': [1.0], 'oo': oo, 'pp': {'k1': 'x'}}))
-    aa, oo = [['x'], {}], {'k1': []}
+    out.append(('every variable its own container', {'aa': [1.0], 'bb': [], 'cc': ['x'], 'oo': {'k1': 'x'}, 'pp': {}}))
+    aa, oo = [['x']], {'k1': {}}
     out.append(('anonymous nested containers', {'aa': aa, 'bb': [], 'cc': aa, 'oo': oo, 'pp': oo}))
     bb = [None]
     aa = [bb]
@@ -268,11 +272,8 @@ class Runtime:
         bs.execute_script(bs.parse_script(PRELUDE), self.options)
         self.names = frozenset(self.globals) | {'rr'} | frozenset(POOL)
         self.mutating = [name in rl.MUTATORS for name, _, _ in self.events]
+        self.seen_outcomes = set()     # per process: outcomes already handed to the accumulator of this process
 
-    def install(self, desc):
-        live = bfs.decode_pool(desc)
-        self.globals.update(live)
-        return live
 
 
 _RT = {}
@@ -297,19 +298,119 @@ def is_scalar(v):
     return not isinstance(v, (list, dict))
 
 
-def run_event(rt, desc, live, key0, ei, acc, number=None):
-    """ONE case: event number ei on the live state `live` (rebuilt from desc, installed in rt.globals, key key0).
-    Returns (successor or None, state_dirty)."""
+NOTHING = ('NOTHING',)
+
+
+def pretty(pool, rr=NOTHING):
+    """Readable rendering of a pool (and a result) for violation reports: containers are written once as
+    #n[...] / #n{...} and referred to as #n afterwards, so sharing is visible."""
+    ids = {}
+
+    def one(v):
+        if isinstance(v, (list, dict)):
+            if id(v) in ids:
+                return f'#{ids[id(v)]}'
+            ids[id(v)] = len(ids)
+            n = ids[id(v)]
+            if isinstance(v, list):
+                return f'#{n}[' + ', '.join(one(x) for x in v) + ']'
+            return f'#{n}{{' + ', '.join(f'{k}: {one(x)}' for k, x in v.items()) + '}'
+        if v is UNSPECIFIED:
+            return '(left open)'
+        if callable(v):
+            return '<function>'
+        text = rv.string(v) if rv.rtype(v) in ('null', 'boolean', 'number') else repr(v)
+        return text if text is not UNSPECIFIED else repr(v)
+
+    text = ' '.join(f'{n}={one(pool[n])}' for n in POOL if n in pool)
+    if rr is not NOTHING:
+        text += ' | rr=' + one(rr)
+    return text
+
+
+class Live:
+    """One rebuilt copy of a state: the pool of live objects, the numbering of its containers (first-visit order from
+    the sorted variable names, as in common.canon) and a shallow snapshot of every container, by which "nothing was
+    touched" is recognised without canonicalising (same element objects at the same places, same keys in the same order)."""
+
+    def __init__(self, desc):
+        self.pool = bfs.decode_pool(desc)
+        self.memo = {}
+        self.canon = canon(self.pool, self.memo)
+        conts = []
+        seen = set()
+
+        def walk(v):
+            if isinstance(v, (list, dict)) and id(v) not in seen:
+                seen.add(id(v))
+                conts.append(v)
+                for x in (v if isinstance(v, list) else v.values()):
+                    walk(x)
+
+        for name in POOL:
+            walk(self.pool[name])
+        self.conts = conts
+        self.snap = [list(c) if isinstance(c, list) else list(c.items()) for c in conts]
+
+    def untouched(self):
+        for c, snap in zip(self.conts, self.snap):
+            if len(c) != len(snap):
+                return False
+            if isinstance(c, list):
+                for a, b in zip(c, snap):
+                    if a is not b:
+                        return False
+            else:
+                for (k, v), (k2, v2) in zip(c.items(), snap):
+                    if v is not v2 or k != k2:
+                        return False
+        return True
+
+    def rel(self, value):
+        """Canonical form of a result relative to the pool: pool containers appear as ('ref', their number), containers
+        that are not part of the pool are numbered after them - fresh vs shared is part of the form."""
+        if not isinstance(value, (list, dict)):
+            return canon(value)
+        return canon(value, dict(self.memo))
+
+
+class Work:
+    """The state being expanded: the copy the implementation runs on (installed in the interpreter's globals), the
+    private copy the reference mutators run on, the key of the state."""
+
+    def __init__(self, rt, desc):
+        self.rt = rt
+        self.desc = desc
+        self.live = None
+        self.rlive = None
+        self.fresh_live()
+        self.fresh_rlive()
+        self.key0 = bfs.pool_key(self.live.pool)
+
+    def fresh_live(self):
+        self.live = Live(self.desc)
+        self.rt.globals.update(self.live.pool)
+
+    def fresh_rlive(self):
+        self.rlive = Live(self.desc)
+
+
+def run_event(rt, st, ei, acc, number=None):
+    """ONE case: event number ei on the state st (a Work). Returns the validated in-bound successor or None, and leaves
+    st pristine again."""
     name, args, text = rt.events[ei]
     mutating = rt.mutating[ei]
     G = rt.globals
-    case = {'tier': rt.tier, 'state': desc, 'event': ei, 'text': text}
+    live = st.live
+    case = {'tier': rt.tier, 'state': st.desc, 'event': ei, 'text': text}
     if number is not None:
         case['state_number'] = number
 
-    # reference: mutators run on a private copy of the state, everything else on the live objects themselves
-    rpool = bfs.decode_pool(desc) if mutating else live
-    out = rl.call(name, [ref_value(a, rpool) for a in args])
+    # reference: mutators run on the private copy of the state, everything else on the live objects themselves (so the
+    # alias relation of a result to the pool can be compared directly)
+    rside = st.rlive if mutating else live
+    out = rl.call(name, [ref_value(a, rside.pool) for a in args])
+    want = out.value
 
     # implementation
     G.pop('rr', None)
@@ -317,65 +418,81 @@ def run_event(rt, desc, live, key0, ei, acc, number=None):
         rt.bs.execute_script(rt.scripts[ei], rt.options)
     except Exception as exc:  # pylint: disable=broad-exception-caught
         acc.violation(case, 'the call returns', f'{type(exc).__name__}: {exc}', 'an exception escapes execute_script')
-        return None, True
+        st.fresh_live()
+        st.fresh_rlive()
+        return None
     acc.evals += 1
     acc.transitions += 1
     got = G.get('rr')
-    ipool = {n: G.get(n) for n in POOL}
-    bad = False
-    if any(ipool[n] is not live[n] for n in POOL):
-        acc.violation(case, 'pool variables keep their bindings', sorted(n for n in POOL if ipool[n] is not live[n]), 'a library call rebound a global variable')
-        return None, True
-
-    # result (+ its alias relation to the pool) and post-state
-    want = out.value
     if name == 'objectKeys' and isinstance(got, list) and all(isinstance(k, str) for k in got):
         got = sorted(got)       # the order of the keys is not documented
-    if want is UNSPECIFIED:
-        acc.unspecified += 1
-        if canon(ipool) != canon(rpool):
-            acc.violation(case, canon(rpool), canon(ipool), 'post-state differs from the reference (result left open)')
-            bad = True
-    elif is_scalar(want) and is_scalar(got) and not mutating:
-        if canon(got) != canon(want):
-            acc.violation(case, want, got, ('failure value' if out.failed else 'result') + ' differs from the reference')
+    word = 'failure value' if out.failed else 'result'
+    bad = False
+    changed = False
+    succ = None
+    for n in POOL:
+        if G.get(n) is not live.pool[n]:
+            acc.violation(case, 'pool variables keep their bindings', n, 'a library call rebound a global variable')
+            st.fresh_live()
+            st.fresh_rlive()
+            return None
+
+    i_same = live.untouched()
+    r_same = rside.untouched()
+    if i_same and r_same:
+        # neither side touched the state: only the result (and its alias relation to the pool) is left to compare
+        if want is UNSPECIFIED:
+            acc.unspecified += 1
+        elif live.rel(got) != rside.rel(want):
+            acc.violation(case, pretty(rside.pool, want), pretty(live.pool, got), word + ' differs from the reference (values, or fresh vs shared with the pool)')
             bad = True
     else:
-        ci = canon({'pool': ipool, 'rr': got})
-        cr = canon({'pool': rpool, 'rr': want})
+        ipool = live.pool
+        rpool = rside.pool
+        if want is UNSPECIFIED:
+            acc.unspecified += 1
+            ci, cr = canon(ipool), canon(rpool)
+        else:
+            ci, cr = canon({'pool': ipool, 'rr': got}), canon({'pool': rpool, 'rr': want})
+        key1 = bfs.pool_key(ipool)
+        changed = key1 != st.key0
         if ci != cr:
-            if canon(ipool) != canon(rpool):
-                diff = 'post-state (values or alias graph) differs from the reference'
-            elif rv.rtype(got) != rv.rtype(want) or (is_scalar(got) and canon(got) != canon(want)):
-                diff = ('failure value' if out.failed else 'result') + ' differs from the reference'
-            else:
-                diff = 'result differs from the reference in its values or in its alias relation to the pool (fresh vs shared)'
-            acc.violation(case, cr, ci, diff)
             bad = True
-    key1 = bfs.pool_key(ipool)
-    changed = key1 != key0
-    if not mutating and changed:
-        if not bad:
-            acc.violation(case, 'state unchanged', canon(ipool), 'a call that is not a mutator' + (' and failed' if out.failed else '') + ' changed the state')
-        bad = True
-    if out.failed and changed and not bad:
-        acc.violation(case, 'state unchanged', canon(ipool), 'a failing call changed the state')
-        bad = True
+            if canon(ipool) != canon(rpool):
+                if out.failed or not mutating:
+                    diff = ('a failing call' if out.failed else 'a call that is not a mutator') + ' changed the state'
+                else:
+                    diff = 'post-state (values or alias graph) differs from the reference'
+            else:
+                diff = word + ' differs from the reference (values, or fresh vs shared with the pool)'
+            acc.violation(case, pretty(rpool, want), pretty(ipool, got), diff)
+        elif changed and (out.failed or not mutating):
+            bad = True      # only reachable if the reference itself is wrong; reported rather than hidden
+            acc.violation(case, 'state unchanged', pretty(ipool, got), 'reference and implementation both changed the state in a call that must not')
+        if changed and not bad:
+            acc.count('state_changing')
+            if kinds_ok(ipool) and within(bfs.pool_stats(ipool), rt.bounds):
+                succ = (ei, key1, bfs.encode_pool(ipool))
+            else:
+                acc.pruned += 1
+        if not i_same:
+            st.fresh_live()
+        if not r_same:
+            if mutating:
+                st.fresh_rlive()
+            elif i_same:
+                st.fresh_live()     # the reference touched the live objects: harness error, made visible above
     if not bad and want is not UNSPECIFIED:
         acc.traces += 1
     if not out.failed:
         acc.nontrivial += 1
     else:
         acc.count('failing_calls')
-    acc.outcome((name, out.failed, changed, rv.rtype(want) if want is not UNSPECIFIED else 'open'))
-    succ = None
-    if changed and not bad:
-        acc.count('state_changing')
-        if kinds_ok(ipool) and within(bfs.pool_stats(ipool), rt.bounds):
-            succ = (ei, key1, bfs.encode_pool(ipool))
-        else:
-            acc.pruned += 1
-    return succ, changed or bad
+    obs = (name, out.failed, changed, rv.rtype(want) if want is not UNSPECIFIED else 'open')
+    if obs not in rt.seen_outcomes:
+        rt.seen_outcomes.add(obs)
+        acc.outcome(obs)
+    return succ
 
 
 class ContainerModel:
@@ -400,16 +517,13 @@ class ContainerModel:
 
     def expand(self, desc, acc, number):
         rt = self.rt
-        live = rt.install(desc)
-        key0 = bfs.pool_key(live)
+        st = Work(rt, desc)
         succs = []
         for ei in range(len(rt.events)):
             acc.cases += 1
-            succ, dirty = run_event(rt, desc, live, key0, ei, acc, number)
+            succ = run_event(rt, st, ei, acc, number)
             if succ is not None:
                 succs.append(succ)
-            if dirty:
-                live = rt.install(desc)
         if number % 97 == 0:
             acc.sample({'state': desc, 'events': len(rt.events), 'successors': len({k for _, k, _ in succs}),
                         'first_successor_by': rt.events[succs[0][0]][2] if succs else None})
@@ -418,21 +532,19 @@ class ContainerModel:
 
 def check_containers(case, acc):
     rt = runtime(case['tier'])
-    live = rt.install(case['state'])
-    key0 = bfs.pool_key(live)
     ei = case['event']
     if rt.events[ei][2] != case['text']:
         raise HarnessError(f'event {ei} is {rt.events[ei][2]!r}, the recorded case says {case["text"]!r}')
-    case = {k: v for k, v in case.items() if k not in ('history', 'state_number')}
     acc.cases += 1
-    return run_event(rt, case['state'], live, key0, ei, acc)
+    return run_event(rt, Work(rt, case['state']), ei, acc)
 
 
 def fam_containers(arg):
     tier, seed_filter = arg
     acc = Acc('containers')
     model = ContainerModel(tier, seed_filter)
-    cap = float(__import__('os').environ.get('VERIF_BFS_CAP_S', '420' if tier == 'quick' else '3000'))
+    # stop between two levels before the runner's own cap would kill the shard (the evidence then says exhaustive: false)
+    cap = 0.9 * float(os.environ.get('VERIF_TIME_CAP_S', '1500' if tier == 'quick' else '14400'))
     rep = bfs.explore(model, acc, deadline=time.time() + cap)
     if acc.cases != rep['expanded'] * len(model.rt.events):
         raise HarnessError(f'containers: {acc.cases} cases for {rep["expanded"]} expanded states x {len(model.rt.events)} events')
@@ -652,6 +764,8 @@ def impl_call(bs, name, args):
 
 
 def check_regex(case, acc, targets=None):
+    if 'fn' in case:
+        return check_bad_call(case, acc)
     bs = load_impl()
     from bare_script.library import SCRIPT_FUNCTIONS as F  # pylint: disable=import-outside-toplevel,import-error
     s = case['s']
@@ -689,19 +803,24 @@ def fam_regex(arg):
         if i % 400 == 17:
             acc.sample({'s': s, 'escaped': impl_call(load_impl(), 'regexEscape', [s]), 'matches_among_all_t': hits})
     if rows and rows[0] == 0:
-        bs = load_impl()
-        for tname, w in WRONG.items():
-            if tname != 'string':
-                acc.cases += 1
-                got = impl_call(bs, 'regexEscape', [ref_value(w, {'bb': [], 'oo': {}})])
-                if got is not None:
-                    acc.violation({'wrong': tname}, None, got, 'regexEscape of a non-string is not null')
-        for args in ([], ['a', 'b']):
+        for case in bad_calls('regexEscape'):
             acc.cases += 1
-            got = impl_call(bs, 'regexEscape', list(args))
-            if got is not None:
-                acc.violation({'nargs': len(args)}, None, got, 'regexEscape with a missing/surplus argument is not null')
+            check_bad_call(case, acc)
     return acc.result()
+
+
+def bad_calls(name):
+    """Wrong-typed (every other type), missing and surplus argument lists of a one-string-parameter function."""
+    return [{'fn': name, 'wrong': t} for t in WRONG if t != 'string'] + [{'fn': name, 'nargs': 0}, {'fn': name, 'nargs': 2}]
+
+
+def check_bad_call(case, acc):
+    bs = load_impl()
+    args = [ref_value(WRONG[case['wrong']], {'bb': [], 'oo': {}})] if 'wrong' in case else ['a'] * case['nargs']
+    got = impl_call(bs, case['fn'], args)
+    acc.evals += 1
+    if got is not None:
+        acc.violation(case, None, got, f"{case['fn']} with a wrong-typed, missing or surplus argument does not return null")
 
 
 # ---------------------------------------------------------------------------------------------------------------
@@ -720,6 +839,8 @@ HEX = frozenset('0123456789ABCDEFabcdef')
 
 
 def check_url(case, acc):
+    if 'fn' in case and 's' not in case:
+        return check_bad_call(case, acc)
     bs = load_impl()
     s = case['s']
     obs = []
@@ -766,23 +887,14 @@ def fam_url(arg):
             acc.outcome(obs)
         acc.sample({'s': first + '/', 'urlEncodeComponent': impl_call(load_impl(), 'urlEncodeComponent', [first + '/']), 'urlEncode': impl_call(load_impl(), 'urlEncode', [first + '/'])})
     if firsts and firsts[0] == 0:
-        bs = load_impl()
         for s in [''] + URL_EXTRA:
             acc.cases += 1
             obs = check_url({'s': s}, acc)
             acc.outcome(obs)
         for name in ('urlEncode', 'urlEncodeComponent'):
-            for tname, w in WRONG.items():
-                if tname != 'string':
-                    acc.cases += 1
-                    got = impl_call(bs, name, [ref_value(w, {'bb': [], 'oo': {}})])
-                    if got is not None:
-                        acc.violation({'fn': name, 'wrong': tname}, None, got, f'{name} of a non-string is not null')
-            for args in ([], ['a', 'b']):
+            for case in bad_calls(name):
                 acc.cases += 1
-                got = impl_call(bs, name, list(args))
-                if got is not None:
-                    acc.violation({'fn': name, 'nargs': len(args)}, None, got, f'{name} with a missing/surplus argument is not null')
+                check_bad_call(case, acc)
     return acc.result()
 
 
